@@ -195,3 +195,10 @@ def run(rep: Report, prog: Program, tier: str) -> None:
     rep.obligations += n_ok
     rep.discharged += n_ok
     rep.samples.extend(sub.samples[:2])
+
+    # ---------------- shared rules: NACK wire format (C07-NACK), RTX wrapping (C07-RTP), jitter buffer integrity (C10-FRAMES / C10-OVERFLOW)
+    from .common import import_rules
+    import_rules(rep, prog, tier, PROP, "C11-FEEDBACK", "C07", ["C07-NACK", "C07-RTP"],
+                 "the NACK the receiver sends denotes, after parsing at the sender, exactly the lost sequence numbers; RTX wrapping is invertible (rules C07-NACK, C07-RTP)", 30)
+    import_rules(rep, prog, tier, PROP, "C11-JB", "C10", ["C10-FRAMES", "C10-OVERFLOW"],
+                 "the jitter buffer hands over whole frames in sending order, tails only right after a discard (rules C10-FRAMES, C10-OVERFLOW)", 100)
